@@ -2,8 +2,14 @@
   C09 — BUS.  Property theorems about the model `Nng.Bus` (src/sp/protocol/bus0/bus.c with
   finding F7 fixed), for ALL event sequences: `reach evs` is the state after any list of
   harness events from the initial state.  Helper lemmas live in Proofs/Bus*.lean.
+  The last section proves that the executable trace predicate (`busJudge`, Spec/Bus.lean —
+  the judge the check runs on every implementation trace) accepts every trace of the model:
+  `bus_judge_accepts_model` (plain traces) and `bus_judge_accepts_model_probed` (traces with
+  the harness' `pipe_id` probes, as Driver/Bus.lean feeds them to the judge); simulation in
+  Proofs/BusJudge.lean.  It is no longer only tested on every run.
 -/
 import NngModel.Proofs.BusStep
+import NngModel.Proofs.BusJudge
 import NngModel.Spec.Bus
 import NngModel.Generated.C09
 namespace Nng.C09
@@ -241,5 +247,104 @@ example : (run {} demoFull).2.drop 3 =
      [Out.rv 0, Out.psend 0 ⟨[], [2]⟩]] := by decide
 
 example : ((reach demoFull).pipes.map (fun pp => pp.dropped.map (·.m.body))) = [[[3]]] := by decide
+
+/-! ### JUDGE — the trace predicate of Spec/Bus.lean accepts every trace of the model -/
+
+open Nng.BusSpec in
+/-- JUDGE (BUS), plain traces.  For every event sequence whose send bodies are pairwise
+    distinct (the judge identifies a wire message with a send by its body), without the
+    harness-only misuse `abort aio 0`, and in which no raw send names an attached pipe as
+    origin (without `pipe_id` probes the judge knows no pipe id; see the probed version),
+    the judge accepts the trace of the model: events zipped with the model's outputs. -/
+theorem bus_judge_accepts_model (evs : List Ev) (hd : DistinctBodies evs) (hn : NoAbort0 evs)
+    (ho : NoLiveOrigin {} evs) : busJudge (evs.zip (run {} evs).2) = none := by
+  rw [← traceOf_eq_zip]; exact bus_judge_ok evs hd hn ho
+
+/-- JUDGE (BUS), traces with `pipe_id` probes — the shape Driver/Bus.lean produces and judges
+    (`traceP`: the model answers a probe with `pipeIdOf`; `busJudgeP`: `busStep` on event
+    lines, `learnId` on probe lines).  The origin hypothesis becomes: a raw send whose header
+    names an attached pipe names one that was probed while attached (the check probes every
+    pipe right after `pipe_add`).  Raw origin exclusion is covered by this version. -/
+theorem bus_judge_accepts_model_probed (items : List Item) (hd : DistinctBodiesI items)
+    (hn : NoAbort0I items) (hk : OriginsKnown [] {} items) : busJudgeP (traceP {} items) = none :=
+  bus_judge_probed_ok items hd hn hk
+
+/-- the plain judge is the probed judge on a trace without probes -/
+theorem bus_judge_plain_is_probed (evs : List Ev) :
+    busJudgeP (traceP {} (evs.map Item.ev)) = Nng.BusSpec.busJudge (evs.zip (run {} evs).2) := by
+  rw [traceP_ev, busJudgeP_plain, traceOf_eq_zip]
+
+/-- a syntactic sufficient condition for `NoLiveOrigin`: no send carries a 4-byte header -/
+def shortHdr : Ev → Bool
+  | .send _ _ m _ => m.hdr.length < 4
+  | _ => true
+
+theorem noLiveOrigin_of_short : ∀ (evs : List Ev) (s : State), (∀ e ∈ evs, shortHdr e = true) →
+    NoLiveOrigin s evs
+  | [], _, _ => trivial
+  | e :: es, s, h => by
+    refine ⟨?_, noLiveOrigin_of_short es _ (fun e' he' => h e' (by simp [he']))⟩
+    have h1 := h e (by simp)
+    cases e with
+    | send c a m mode =>
+      intro _ hl
+      simp [shortHdr] at h1
+      omega
+    | _ => trivial
+
+/-! the hypotheses are needed -/
+
+/-- two sends with the same body: the judge takes the second wire message for the first send -/
+theorem bus_judge_needs_distinct_bodies :
+    Nng.BusSpec.busJudge (traceOf {} [.openSock "bus" false, .pipeAdd busId, .send none 0 ⟨[], [1]⟩ .nb,
+      .sendDone 0 0, .send none 0 ⟨[], [1]⟩ .nb]) ≠ none := by decide
+
+/-- `abort aio 0` completes a parked receive with rv 0 and no message -/
+theorem bus_judge_needs_no_abort0 :
+    Nng.BusSpec.busJudge (traceOf {} [.openSock "bus" false, .recv none 1 .inf, .abort 1 0]) ≠ none := by decide
+
+/-- raw send naming pipe 0 as origin: the model skips pipe 0; a judge that was never told the
+    id of pipe 0 expects the message there -/
+theorem bus_judge_needs_known_origin :
+    Nng.BusSpec.busJudge (traceOf {} [.openSock "bus" true, .pipeAdd busId,
+      .send none 0 ⟨stampHdr true 0, [1]⟩ .nb]) ≠ none := by decide
+
+/-! non-vacuity of the judge theorems -/
+
+/-- cooked, two peers, queue depth 1: direct hand-off, queued, dropped whole, send
+    completion draining the queue, arrival with and without a waiting receiver, expiry, close -/
+def demoJudge : List Ev :=
+  [.openSock "bus" false, .setopt none "send-buffer" "int" 1, .pipeAdd busId, .pipeAdd busId,
+   .send none 0 ⟨[], [1]⟩ .nb, .send none 0 ⟨[9], [2]⟩ .inf, .send none 0 ⟨[], [3]⟩ (.ms 0), .sendDone 0 0,
+   .recv none 5 (.ms 10), .recvDone 1 (.ok [7]), .recvDone 1 (.ok [8]), .recv none 6 .nb, .poll,
+   .recv none 7 (.ms 5), .advance 100, .pipeDrop 1, .close]
+
+example : DistinctBodies demoJudge ∧ NoAbort0 demoJudge ∧ NoLiveOrigin {} demoJudge ∧
+    Nng.BusSpec.busJudge (demoJudge.zip (run {} demoJudge).2) = none :=
+  ⟨by unfold DistinctBodies sendBodies; decide, by unfold NoAbort0; decide,
+   noLiveOrigin_of_short _ _ (by decide), by decide⟩
+
+/-- raw, two probed peers: a message arrives from pipe 0, is received (header = id of pipe 0)
+    and sent again with that header: it goes to pipe 1 only, and the judge — told the ids —
+    accepts that -/
+def demoProbed : List Item :=
+  [.ev (.openSock "bus" true), .ev (.pipeAdd busId), .probe 0, .ev (.pipeAdd busId), .probe 1,
+   .ev (.recvDone 0 (.ok [1, 2])), .ev (.recv none 3 .nb), .ev (.send none 4 ⟨stampHdr true 0, [1, 2]⟩ .nb)]
+
+example : DistinctBodiesI demoProbed ∧ NoAbort0I demoProbed ∧ busJudgeP (traceP {} demoProbed) = none :=
+  ⟨by unfold DistinctBodiesI; decide, by unfold NoAbort0I; decide, by decide⟩
+
+example : OriginsKnown [] {} demoProbed := by
+  refine ⟨trivial, trivial, trivial, trivial, trivial, ?_, trivial⟩
+  intro _ _ i pp _ _ hp
+  have h0 : beDecode ((stampHdr true 0).take 4) = pid 0 := by
+    have := parseSender_stamp 0 [] (by decide)
+    have hl : (stampHdr true 0).length ≥ 4 := by simp [stampHdr]
+    simp only [List.append_nil, parseSender, hl, if_true] at this
+    exact congrArg Prod.fst this
+  rw [h0] at hp
+  have : i = 0 := (pid_inj hp).symm
+  subst this
+  decide
 
 end Nng.C09
